@@ -46,6 +46,7 @@ type SeqScenario struct {
 	Seed       int64             `json:"seed"`
 	PrintTable bool              `json:"printtable"` // PrintTable() switched on next to the other consumers (it is a sink like any other: it only reads)
 	ColMap     map[string]string `json:"colmap"`     // data columns handed to the engine under other names (orig -> new); the trace keeps the original names
+	SchemaReq  []string          `json:"schema_req"` // fields of Schema that are Required as well (a default suppresses the required-missing error)
 	Schema     map[string]any    `json:"schema"`     // WithSchema: field name -> default value (typed, see Decode) for rows that lack the field; the caller's map stays as it was
 }
 
@@ -161,7 +162,11 @@ func RunSeq(sc SeqScenario) (evs []Ev, inconclusive string) {
 	if len(sc.Schema) > 0 {
 		sch := schema.Schema{Name: "in"}
 		for _, name := range sortedKeys(sc.Schema) {
-			sch.Fields = append(sch.Fields, schema.FieldDef{Name: name, Type: schema.TypeAny, Default: Decode(sc.Schema[name])})
+			req := false
+			for _, r := range sc.SchemaReq {
+				req = req || r == name
+			}
+			sch.Fields = append(sch.Fields, schema.FieldDef{Name: name, Type: schema.TypeAny, Required: req, Default: Decode(sc.Schema[name])})
 		}
 		opts = append(opts, streamsql.WithSchema(sch))
 	}
